@@ -107,7 +107,7 @@ static void proc_end(struct proc *q)
   if (!q->p) return;
   int s = vk_cfg.sched_on;
   vk_cfg.sched_on = 0;
-  if (q->c->state == CH_RUNNING || q->c->state == CH_ZOMBIE) {
+  if (q->c->state == CH_RUNNING || q->c->state == CH_ZOMBIE || q->c->state == CH_LIBPEND) {
     reproc_stop_actions k = { { REPROC_STOP_KILL, REPROC_INFINITE }, { REPROC_STOP_NOOP, 0 }, { REPROC_STOP_NOOP, 0 } };
     reproc_stop(q->p, k);
   }
